@@ -1,9 +1,9 @@
 (* Proofs/PfC14.v — every entry point of property C14 meets its executable specification. *)
 From Coq Require Import ZArith List Bool Lia Arith.
 From RV.Model Require Import Base Word.
-From RV.Model Require DivRecip DivSmall DivKnuth Div.
+From RV.Model Require DivRecip DivSmall DivKnuth Div DivRef.
 From RV.Run Require Import RunC14.
-From RV.Proofs Require Import BaseFacts PfDivBase PfDivRecip PfDivSmall PfDivKnuth PfDiv.
+From RV.Proofs Require Import BaseFacts PfDivBase PfDivRecip PfDivSmall PfDivKnuth PfDiv PfDivRef.
 Import ListNotations.
 Local Open Scope Z_scope.
 
@@ -36,7 +36,8 @@ Qed.
 Theorem C14_all c : wf c -> spec c (run c) = true.
 Proof.
   destruct c as [bits n d | bits n d | bits n d | bits n d | bits n d | bits n d | bits n d
-                | bits u d v | bits u21 u0 d v | bits d | bits d]; cbn [wf spec run].
+                | bits u d v | bits u21 u0 d v | bits d | bits d
+                | bits u d | bits n21 n0 d | bits d]; cbn [wf spec run].
   - (* div *)
     intros (_ & Hn & Hd). destruct (Z.eqb_spec (eval d) 0) as [E|E].
     + rewrite (div_kernel_zero n d Hd E). reflexivity.
@@ -91,6 +92,20 @@ Proof.
     intros (_ & Hd). apply in128_lt in Hd. unfold under.
     destruct (Z.leb_spec (2 ^ 127) d) as [Hpre|]; [|reflexivity].
     rewrite (reciprocal_2_ok d ltac:(lia)). cbn [omap obind]. rewrite BBB_eq. apply expect_refl.
+  - (* div_2x1_ref *)
+    intros (_ & Hu & Hd). apply in128_lt in Hu. unfold under.
+    destruct ((2 ^ 63 <=? d) && (u / B <? d)) eqn:Hpre; [|reflexivity].
+    rewrite !andb_true_iff, Z.leb_le, Z.ltb_lt in Hpre. destruct Hpre as [Hn Hlt]. unfold inW in Hd.
+    rewrite (div_2x1_ref_ok u d ltac:(lia) ltac:(lia) Hlt). apply expect_refl.
+  - (* div_3x2_ref *)
+    intros (_ & Hu & Hu0 & Hd). apply in128_lt in Hu. apply in128_lt in Hd. unfold under.
+    destruct ((2 ^ 127 <=? d) && (n21 <? d)) eqn:Hpre; [|reflexivity].
+    rewrite !andb_true_iff, Z.leb_le, Z.ltb_lt in Hpre. destruct Hpre as [Hn Hlt].
+    rewrite (div_3x2_ref_ok n21 n0 d ltac:(lia) ltac:(lia) Hu0). apply expect_refl.
+  - (* reciprocal_ref *)
+    intros (_ & Hd). unfold under. destruct (Z.leb_spec (2 ^ 63) d) as [Hpre|]; [|reflexivity].
+    unfold inW in Hd. rewrite (reciprocal_ref_ok d ltac:(lia)).
+    cbn [omap obind]. rewrite BB_eq. apply expect_refl.
 Qed.
 
 (* Regression of finding D1 (repaired in the crate): the two witnesses now violate a
